@@ -1,5 +1,433 @@
 import Driver.Util
+import KavaVerif.Model.Bep3
+/-!
+  C13 driver (x/bep3 atomic swaps).  One self-contained case per line:
+
+    c13.op  kind  cfg  pre  args  hashes  limStable  =>  result  post
+
+  kind    create | claim | refund | begin | setlimit
+  cfg     module;macc bits;blocked bits
+  pre/post  height|time|prevTime|assets|supplies|swaps|byBlock|longterm|bal|bankSupply
+            assets   d,deputy,limit,timeLimited,period,tbl,active,fee,min,max,minLock,maxLock ;…
+            supplies d,incoming,outgoing,current,tlCurrent,elapsed ;…
+            swaps    id,denom,amt,hash,ts,sender,recipient,other,expire,dir,status,closed ;…
+            byBlock / longterm  height,id ;…       bal  one row per party, one column per denom
+  args    create: hash,ts,span,sender,recipient,other,n,(d,amt)×n   claim: from,id,secret
+          refund: from,id   begin: dh,dt   setlimit: d,limit,timeLimited,period,tbl,active
+  hashes  sid entries `hash,sender,other,id;…` | H entries `secret,ts,hash;…` observed on the real
+          CalculateSwapID / CalculateRandomHash (byte strings interned injectively)
+
+  The handler (1) runs the Lean model on the observed pre-state and compares it with the observed
+  post-state (MISMATCH) and (2) evaluates the C13 predicates on the implementation's own observation,
+  independently of the model (PREDFAIL).
+-/
 namespace Drv.C13
-/-- handlers of property C13: (command name, handler) -/
-def handlers : List (String × Handler) := []
+open KV KV.Bep3
+
+structure OSt where
+  height : Nat
+  time : Int
+  prevTime : Int
+  assets : List (Denom × Asset)
+  supplies : List (Denom × Supply)
+  swaps : List Swap
+  byBlock : List Key
+  longterm : List Key
+  bal : List (List Int)
+  bankSupply : List Int
+
+def statusOf (n : Int) : Option Status :=
+  if n = KV.Gen.bep3StatusOpen then some .open
+  else if n = KV.Gen.bep3StatusCompleted then some .completed
+  else if n = KV.Gen.bep3StatusExpired then some .expired
+  else none
+
+def dirOf (n : Int) : Option Dir :=
+  if n = KV.Gen.bep3DirectionIncoming then some .incoming
+  else if n = KV.Gen.bep3DirectionOutgoing then some .outgoing
+  else none
+
+def rows (s : String) : Option (List (List Int)) := (strs s ";").mapM ints?
+
+def parseAsset : List Int → Option (Denom × Asset)
+  | [d, dep, limit, tl, period, tbl, act, fee, mn, mx, minL, maxL] =>
+    some (d.toNat, { deputy := dep.toNat, limit := limit, timeLimited := tl != 0, period := period, tbl := tbl,
+                     active := act != 0, fee := fee, minAmt := mn, maxAmt := mx, minLock := minL.toNat, maxLock := maxL.toNat })
+  | _ => none
+
+def parseSupply : List Int → Option (Denom × Supply)
+  | [d, i, o, c, t, e] => some (d.toNat, { incoming := i, outgoing := o, current := c, tlCurrent := t, elapsed := e })
+  | _ => none
+
+def parseSwap : List Int → Option Swap
+  | [id, d, amt, hash, ts, snd, rcp, oth, exp, dir, st, closed] => do
+    let dir ← dirOf dir
+    let st ← statusOf st
+    some { id := id.toNat, denom := d.toNat, amt := amt, hash := hash.toNat, ts := ts, sender := snd.toNat,
+           recipient := rcp.toNat, other := oth.toNat, expire := exp.toNat, dir := dir, status := st, closed := closed.toNat }
+  | _ => none
+
+def parseKey : List Int → Option Key
+  | [h, id] => some (h.toNat, id.toNat)
+  | _ => none
+
+def parseSt (s : String) : Option OSt :=
+  match s.splitOn "|" with
+  | [h, t, p, as, ss, sw, bb, lt, bl, bs] => do
+    let h ← nat? h
+    let t ← int? t
+    let p ← int? p
+    let as ← (← rows as).mapM parseAsset
+    let ss ← (← rows ss).mapM parseSupply
+    let sw ← (← rows sw).mapM parseSwap
+    let bb ← (← rows bb).mapM parseKey
+    let lt ← (← rows lt).mapM parseKey
+    let bl ← rows bl
+    let bs ← ints? bs
+    some { height := h, time := t, prevTime := p, assets := as, supplies := ss, swaps := sw, byBlock := bb,
+           longterm := lt, bal := bl, bankSupply := bs }
+  | _ => none
+
+def zeroSupply : Supply := { incoming := 0, outgoing := 0, current := 0, tlCurrent := 0, elapsed := 0 }
+
+def supOf (o : OSt) (d : Denom) : Supply :=
+  match o.supplies.find? (fun e => e.1 == d) with
+  | some e => e.2
+  | none => zeroSupply
+
+def balOf (o : OSt) (a : Addr) (d : Denom) : Int := (o.bal.getD a []).getD d 0
+
+def toSt (o : OSt) : St :=
+  { height := o.height, time := o.time, prevTime := o.prevTime, assets := o.assets, supply := supOf o,
+    swaps := o.swaps, byBlock := o.byBlock, longterm := o.longterm, bal := balOf o,
+    bankSupply := fun d => o.bankSupply.getD d 0 }
+
+def keyLe (a b : Key) : Bool := a.1 < b.1 || (a.1 == b.1 && a.2 ≤ b.2)
+def sortKeys (l : List Key) : List Key := l.mergeSort keyLe
+def sortSwaps (l : List Swap) : List Swap := l.mergeSort (fun a b => a.id ≤ b.id)
+
+/-- observation of a model state in the shape of `OSt` -/
+def ofSt (like : OSt) (s : St) : OSt :=
+  { height := s.height, time := s.time, prevTime := s.prevTime, assets := s.assets,
+    supplies := like.supplies.map (fun e => (e.1, s.supply e.1)),
+    swaps := sortSwaps s.swaps, byBlock := sortKeys s.byBlock, longterm := sortKeys s.longterm,
+    bal := (List.range like.bal.length).map (fun a => (List.range (like.bal.getD a []).length).map (fun d => s.bal a d)),
+    bankSupply := (List.range like.bankSupply.length).map s.bankSupply }
+
+def showSwap (s : Swap) : String :=
+  s!"{s.id},{s.denom},{s.amt},{s.hash},{s.ts},{s.sender},{s.recipient},{s.other},{s.expire},{s.dir.code},{s.status.code},{s.closed}"
+def showSupply (e : Denom × Supply) : String :=
+  s!"{e.1},{e.2.incoming},{e.2.outgoing},{e.2.current},{e.2.tlCurrent},{e.2.elapsed}"
+def showAsset (e : Denom × Asset) : String :=
+  s!"{e.1},{e.2.deputy},{e.2.limit},{showBool e.2.timeLimited},{e.2.period},{e.2.tbl},{showBool e.2.active},{e.2.fee},{e.2.minAmt},{e.2.maxAmt},{e.2.minLock},{e.2.maxLock}"
+def showKeys (l : List Key) : String := ";".intercalate (l.map fun k => s!"{k.1},{k.2}")
+
+/-- field-by-field comparison of two observations -/
+def cmpSt (m i : OSt) : String :=
+  allOk [
+    expectEq "height" (toString m.height) (toString i.height),
+    expectEq "time" (toString m.time) (toString i.time),
+    expectEq "prevTime" (toString m.prevTime) (toString i.prevTime),
+    expectEq "assets" (";".intercalate (m.assets.map showAsset)) (";".intercalate (i.assets.map showAsset)),
+    expectEq "supplies" (";".intercalate (m.supplies.map showSupply)) (";".intercalate (i.supplies.map showSupply)),
+    expectEq "swaps" (";".intercalate (m.swaps.map showSwap)) (";".intercalate (i.swaps.map showSwap)),
+    expectEq "byBlock" (showKeys m.byBlock) (showKeys i.byBlock),
+    expectEq "longterm" (showKeys m.longterm) (showKeys i.longterm),
+    expectEq "bal" (";".intercalate (m.bal.map showInts)) (";".intercalate (i.bal.map showInts)),
+    expectEq "bankSupply" (showInts m.bankSupply) (showInts i.bankSupply)]
+
+/-! ### hash tables observed on the implementation -/
+
+structure Tabs where
+  sid : List (Nat × Nat × Nat × Nat)   -- hash, sender, other ↦ id
+  h : List (Nat × Int × Nat)           -- secret, timestamp ↦ hash
+
+def parseTabs (s : String) : Option Tabs :=
+  match s.splitOn "|" with
+  | [a, b] => do
+    let a ← (← rows a).mapM (fun r => match r with
+      | [h, s, o, id] => some (h.toNat, s.toNat, o.toNat, id.toNat) | _ => none)
+    let b ← (← rows b).mapM (fun r => match r with
+      | [rn, ts, h] => some (rn.toNat, ts, h.toNat) | _ => none)
+    some ⟨a, b⟩
+  | _ => none
+
+/-- the hash functions as far as the implementation exhibited them: the op's own entries, then the
+    stored swaps (key = GetSwapID(), checked by the harness); anything else is a fresh value -/
+def hashesOf (t : Tabs) (pre : OSt) : Hashes :=
+  let sidTab := t.sid ++ pre.swaps.map (fun s => (s.hash, s.sender, s.other, s.id))
+  { H := fun rn ts => match t.h.find? (fun e => e.1 == rn && e.2.1 == ts) with
+      | some e => e.2.2
+      | none => 1000000000 + rn,
+    sid := fun h a o => match sidTab.find? (fun e => e.1 == h && e.2.1 == a && e.2.2.1 == o) with
+      | some e => e.2.2.2
+      | none => 1000000000 + h * 1000000 + a * 1000 + o }
+
+/-! ### the operation -/
+
+inductive Cmd where
+  | create (hash : Nat) (ts : Int) (span sender recipient other : Nat) (coins : List (Denom × Int))
+  | claim (frm id rn : Nat)
+  | refund (frm id : Nat)
+  | begin (dh : Nat) (dt : Int)
+  | setlimit (d : Nat) (limit : Int) (tl : Bool) (period tbl : Int) (active : Bool)
+
+def pairs : List Int → Option (List (Denom × Int))
+  | [] => some []
+  | d :: a :: rest => (pairs rest).map (fun r => (d.toNat, a) :: r)
+  | _ => none
+
+def parseCmd (kind : String) (args : List Int) : Option Cmd :=
+  match kind, args with
+  | "create", hash :: ts :: span :: snd :: rcp :: oth :: n :: rest => do
+    let cs ← pairs rest
+    if cs.length != n.toNat then none
+    else some (.create hash.toNat ts span.toNat snd.toNat rcp.toNat oth.toNat cs)
+  | "claim", [f, id, rn] => some (.claim f.toNat id.toNat rn.toNat)
+  | "refund", [f, id] => some (.refund f.toNat id.toNat)
+  | "begin", [dh, dt] => some (.begin dh.toNat dt)
+  | "setlimit", [d, l, tl, p, tbl, act] => some (.setlimit d.toNat l (tl != 0) p tbl (act != 0))
+  | _, _ => none
+
+def toOp : Cmd → Op
+  | .create h ts sp s r o cs => .create h ts sp s r o cs
+  | .claim f id rn => .claim f id rn
+  | .refund f id => .refund f id
+  | .begin dh dt => .beginBlock dh dt
+  | .setlimit d l tl p tbl a => .setLimit d l tl p tbl a
+
+def parseCfg (s : String) : Option Cfg :=
+  match s.splitOn ";" with
+  | [m, macc, blocked] => do
+    let m ← nat? m
+    let macc ← ints? macc
+    let blocked ← ints? blocked
+    some { module := m, macc := fun a => macc.getD a 0 != 0, blocked := fun a => blocked.getD a 0 != 0 }
+  | _ => none
+
+/-! ### the property predicates on the implementation's observation -/
+
+def sumSw (p : Swap → Bool) (l : List Swap) : Int := l.foldl (fun acc s => if p s then acc + s.amt else acc) 0
+
+def isLive (dir : Dir) (d : Denom) (s : Swap) : Bool := s.dir == dir && s.denom == d && s.status != .completed
+
+def assetOf (o : OSt) (d : Denom) : Option Asset := (o.assets.find? (fun e => e.1 == d)).map (·.2)
+
+def first (l : List (Option String)) : Option String := l.findSome? id
+
+/-- state predicates (custody, counters, indexes, deputy direction, limits) -/
+def statePreds (cfg : Cfg) (o : OSt) (limStable : Bool) : Option String :=
+  first [
+    -- C13_custody: the module account holds exactly the outgoing swaps not yet closed
+    o.supplies.findSome? (fun e =>
+      if balOf o cfg.module e.1 != sumSw (isLive .outgoing e.1) o.swaps then some (predfail "C13_custody" s!"module-balance denom={e.1}") else none),
+    -- C13_counters: incoming / outgoing are the sums over live swaps
+    o.supplies.findSome? (fun e =>
+      if e.2.incoming != sumSw (isLive .incoming e.1) o.swaps then some (predfail "C13_counters" s!"incoming denom={e.1}")
+      else if e.2.outgoing != sumSw (isLive .outgoing e.1) o.swaps then some (predfail "C13_counters" s!"outgoing denom={e.1}")
+      else if e.2.outgoing > e.2.current then some (predfail "C13_counters" s!"outgoing-above-current denom={e.1}")
+      else none),
+    -- C13_indexes
+    (if (o.swaps.map (·.id)).eraseDups.length != o.swaps.length then some (predfail "C13_indexes" "duplicate-id") else none),
+    (if sortKeys o.byBlock != sortKeys ((o.swaps.filter (·.status == .open)).map (fun s => (s.expire, s.id)))
+      then some (predfail "C13_indexes" "by-block") else none),
+    (if sortKeys o.longterm != sortKeys ((o.swaps.filter (·.status == .completed)).map (fun s => (s.closed + horizon, s.id)))
+      then some (predfail "C13_indexes" "long-term") else none),
+    -- C13_deputy_only_incoming (deputies are fixed within a sequence)
+    o.swaps.findSome? (fun s => match assetOf o s.denom with
+      | some a => if (s.dir == .incoming) != (s.sender == a.deputy) then some (predfail "C13_deputy_only_incoming" "state") else none
+      | none => some (predfail "C13_deputy_only_incoming" "swap-of-unknown-asset")),
+    -- C13_limits as a state invariant, as long as governance has not touched the limits
+    (if limStable then o.supplies.findSome? (fun e => match assetOf o e.1 with
+      | some a =>
+        if e.2.current + e.2.incoming > a.limit then some (predfail "C13_limits" s!"state-supply-limit denom={e.1}")
+        else if a.timeLimited && e.2.tlCurrent + e.2.incoming > a.tbl then some (predfail "C13_limits" s!"state-time-limit denom={e.1}")
+        else none
+      | none => none) else none)]
+
+def findById (l : List Swap) (id : Nat) : Option Swap := l.find? (fun s => s.id == id)
+
+/-- expected balance / bank-supply movement of the step, derived from the swap transitions only -/
+structure Move where
+  addr : Nat
+  denom : Nat
+  delta : Int
+
+/-- transition predicates (lifecycle, funds, counters, limits) -/
+def stepPreds (cfg : Cfg) (t : Tabs) (cmd : Cmd) (ok : Bool) (pre post : OSt) : Option String :=
+  let isBegin := match cmd with | .begin _ _ => true | _ => false
+  -- which swap may be closed by this command, and is the preimage right?
+  let preimageOk (p : Swap) (rn : Nat) : Bool :=
+    match t.h.find? (fun e => e.1 == rn && e.2.1 == p.ts) with
+    | some e => t.sid.any (fun g => g.1 == e.2.2 && g.2.1 == p.sender && g.2.2.1 == p.other && g.2.2.2 == p.id)
+    | none => false
+  let closedNow := pre.swaps.filter (fun p => match findById post.swaps p.id with
+    | some q => p.status != .completed && q.status == .completed
+    | none => false)
+  let created := post.swaps.filter (fun q => (findById pre.swaps q.id).isNone)
+  let perSwap : Option String := pre.swaps.findSome? (fun p =>
+    match findById post.swaps p.id with
+    | none =>
+      if !isBegin then some (predfail "C13_lifecycle" "vanished-outside-begin-block")
+      else if p.status != .completed then some (predfail "C13_lifecycle" "uncompleted-swap-deleted")
+      else if p.closed + horizon > post.height then some (predfail "C13_indexes" "pruned-before-horizon")
+      else none
+    | some q =>
+      if q == p then
+        if isBegin && p.status == .open && p.expire ≤ post.height then some (predfail "C13_indexes" "not-expired-when-due")
+        else if isBegin && p.status == .completed && p.closed + horizon ≤ post.height then some (predfail "C13_indexes" "not-pruned-when-due")
+        else none
+      else if { q with status := p.status, closed := p.closed } != p then some (predfail "C13_lifecycle" "fields-changed")
+      else match p.status, q.status with
+        | .open, .completed =>
+          (match cmd with
+           | .claim _ id rn =>
+             if !ok || id != p.id then some (predfail "C13_lifecycle" "completed-by-other-op")
+             else if !preimageOk p rn then some (predfail "C13_lifecycle" "claim-without-preimage")
+             else if q.closed != pre.height then some (predfail "C13_lifecycle" "closed-block")
+             else none
+           | _ => some (predfail "C13_lifecycle" "open-completed-without-claim"))
+        | .open, .expired =>
+          if !isBegin then some (predfail "C13_lifecycle" "expired-outside-begin-block")
+          else if p.expire > post.height then some (predfail "C13_lifecycle" "expired-early")
+          else if q.closed != p.closed then some (predfail "C13_lifecycle" "fields-changed")
+          else none
+        | .expired, .completed =>
+          (match cmd with
+           | .refund _ id =>
+             if !ok || id != p.id then some (predfail "C13_lifecycle" "completed-by-other-op")
+             else if p.expire > pre.height then some (predfail "C13_lifecycle" "refund-before-expiry")
+             else if q.closed != pre.height then some (predfail "C13_lifecycle" "closed-block")
+             else none
+           | _ => some (predfail "C13_lifecycle" "expired-completed-without-refund"))
+        | .completed, _ => some (predfail "C13_lifecycle" "completed-changed")
+        | _, _ => some (predfail "C13_lifecycle" "bad-transition"))
+  -- new swaps only by a successful create, exactly one, open, direction by deputy
+  let newOk : Option String :=
+    match cmd, created with
+    | _, [] => (match cmd with
+        | .create .. => if ok then some (predfail "C13_lifecycle" "create-ok-without-swap") else none
+        | _ => none)
+    | .create h ts _ snd rcp oth [(d, amt)], [n] =>
+      if !ok then some (predfail "C13_lifecycle" "swap-created-by-failed-op")
+      else if n.status != .open || n.closed != 0 then some (predfail "C13_lifecycle" "new-swap-not-open")
+      else if n.hash != h || n.ts != ts || n.sender != snd || n.recipient != rcp || n.other != oth || n.denom != d || n.amt != amt
+        then some (predfail "C13_lifecycle" "new-swap-fields")
+      else if !(t.sid.any (fun g => g.1 == h && g.2.1 == snd && g.2.2.1 == oth && g.2.2.2 == n.id))
+        then some (predfail "C13_lifecycle" "new-swap-id")
+      else match assetOf pre d with
+        | some a =>
+          if (n.dir == .incoming) != (snd == a.deputy) then some (predfail "C13_deputy_only_incoming" "create")
+          else if n.dir == .outgoing && rcp != a.deputy then some (predfail "C13_deputy_only_incoming" "outgoing-not-to-deputy")
+          else none
+        | none => some (predfail "C13_lifecycle" "swap-of-unknown-asset")
+    | _, _ => some (predfail "C13_lifecycle" "unexpected-new-swap")
+  -- a successful claim / refund closes exactly its swap; nothing else closes swaps
+  let closeOk : Option String :=
+    match cmd with
+    | .claim _ id _ =>
+      if ok && (closedNow.map (·.id)) != [id] then some (predfail "C13_lifecycle" "claim-ok-without-close")
+      else if !ok && !closedNow.isEmpty then some (predfail "C13_lifecycle" "closed-by-failed-op") else none
+    | .refund _ id =>
+      if ok && (closedNow.map (·.id)) != [id] then some (predfail "C13_lifecycle" "refund-ok-without-close")
+      else if !ok && !closedNow.isEmpty then some (predfail "C13_lifecycle" "closed-by-failed-op") else none
+    | _ => if !closedNow.isEmpty then some (predfail "C13_lifecycle" "closed-without-claim-or-refund") else none
+  -- funds: balances and bank supply move exactly as the transitions say, once
+  let moves : List Move :=
+    (created.flatMap (fun n => if n.dir == .outgoing then [⟨n.sender, n.denom, -n.amt⟩, ⟨cfg.module, n.denom, n.amt⟩] else [])) ++
+    (closedNow.flatMap (fun p => match p.status, p.dir with
+      | .open, .incoming => [⟨p.recipient, p.denom, p.amt⟩]            -- claim: minted to the recipient
+      | .open, .outgoing => [⟨cfg.module, p.denom, -p.amt⟩]            -- claim: burned
+      | .expired, .outgoing => [⟨cfg.module, p.denom, -p.amt⟩, ⟨p.sender, p.denom, p.amt⟩]   -- refund
+      | _, _ => []))
+  let supMoves : List (Nat × Int) := closedNow.flatMap (fun p => match p.status, p.dir with
+      | .open, .incoming => [(p.denom, p.amt)]
+      | .open, .outgoing => [(p.denom, -p.amt)]
+      | _, _ => [])
+  let expBal (a d : Nat) : Int := balOf pre a d + (moves.filter (fun m => m.addr == a && m.denom == d)).foldl (fun acc m => acc + m.delta) 0
+  let fundsOk : Option String :=
+    (List.range pre.bal.length).findSome? (fun a => (List.range (pre.bal.getD a []).length).findSome? (fun d =>
+      if balOf post a d != expBal a d then some (predfail "C13_lifecycle" s!"funds addr={a} denom={d}") else none))
+  let bankOk : Option String :=
+    (List.range pre.bankSupply.length).findSome? (fun d =>
+      let exp := pre.bankSupply.getD d 0 + (supMoves.filter (fun m => m.1 == d)).foldl (fun acc m => acc + m.2) 0
+      if post.bankSupply.getD d 0 != exp then some (predfail "C13_lifecycle" s!"bank-supply denom={d}") else none)
+  -- C13_counters: current supply moves only by claims, by the swap amount; hence current − bank supply is constant
+  let currentOk : Option String := pre.supplies.findSome? (fun e =>
+    let d := e.1
+    let exp := e.2.current + (supMoves.filter (fun m => m.1 == d)).foldl (fun acc m => acc + m.2) 0
+    if (supOf post d).current != exp then some (predfail "C13_counters" s!"current denom={d}")
+    else if (supOf post d).current - post.bankSupply.getD d 0 != e.2.current - pre.bankSupply.getD d 0
+      then some (predfail "C13_counters" s!"current-vs-bank-supply denom={d}")
+    else none)
+  -- C13_limits on the step
+  let limitsOk : Option String :=
+    match cmd with
+    | .create .. =>
+      (match created with
+       | [n] => (match assetOf pre n.denom with
+          | some a =>
+            let sp := supOf post n.denom
+            if n.dir == .incoming && sp.current + sp.incoming > a.limit then some (predfail "C13_limits" "create-over-supply-limit")
+            else if n.dir == .incoming && a.timeLimited && sp.tlCurrent + sp.incoming > a.tbl then some (predfail "C13_limits" "create-over-time-limit")
+            else if n.dir == .outgoing && sp.outgoing > sp.current then some (predfail "C13_limits" "outgoing-over-current")
+            else if n.amt < a.minAmt || n.amt > a.maxAmt then some (predfail "C13_limits" "amount-outside-min-max")
+            else if n.dir == .outgoing && n.amt ≤ a.fee + a.minAmt then some (predfail "C13_limits" "outgoing-cannot-pay-fee")
+            else none
+          | none => none)
+       | _ => none)
+    | .claim .. =>
+      (match closedNow with
+       | [p] => (match assetOf pre p.denom with
+          | some a =>
+            let s0 := supOf pre p.denom
+            let sp := supOf post p.denom
+            if sp.current + sp.incoming > s0.current + s0.incoming then some (predfail "C13_limits" "claim-raises-current-plus-incoming")
+            else if p.dir == .incoming && sp.current > a.limit then some (predfail "C13_limits" "claim-over-supply-limit")
+            else if p.dir == .incoming && a.timeLimited && sp.tlCurrent > a.tbl then some (predfail "C13_limits" "claim-over-time-limit")
+            else if p.dir == .incoming && a.timeLimited && sp.tlCurrent != s0.tlCurrent + p.amt then some (predfail "C13_limits" "time-limited-accounting")
+            else none
+          | none => none)
+       | _ => none)
+    | _ => none
+  -- the time-limited counter only grows by incoming claims and is only reset by the begin blocker
+  let tlOk : Option String := pre.supplies.findSome? (fun e =>
+    let sp := supOf post e.1
+    if isBegin then
+      if sp.tlCurrent != e.2.tlCurrent && sp.tlCurrent != 0 then some (predfail "C13_limits" "time-limited-reset") else none
+    else
+      let claimedIn := (closedNow.filter (fun p => p.status == .open && p.dir == .incoming && p.denom == e.1)).foldl (fun acc p => acc + p.amt) 0
+      if sp.tlCurrent != e.2.tlCurrent && sp.tlCurrent != e.2.tlCurrent + claimedIn then some (predfail "C13_limits" "time-limited-accounting")
+      else none)
+  first [perSwap, newOk, closeOk, fundsOk, bankOk, currentOk, limitsOk, tlOk]
+
+def handle : Handler
+  | [kind, cfg, pre, args, tabs, limStable, _, result, post] =>
+    match parseCfg cfg, parseSt pre, ints? args, parseTabs tabs, bool? limStable, parseSt post with
+    | some cfg, some pre, some args, some tabs, some limStable, some post =>
+      match parseCmd kind args with
+      | none => badInput "args"
+      | some cmd =>
+        -- (2) the property predicates on the implementation's own observation (independent of the model;
+        --     evaluated first so that a broken implementation is reported with its failing input)
+        let pf : Option String :=
+          if result == "panic" then some (predfail "C13_no_panic" kind)
+          else match statePreds cfg post limStable with
+            | some f => some f
+            | none => stepPreds cfg tabs cmd (result == "ok") pre post
+        match pf with
+        | some f => f
+        | none =>
+          -- (1) model vs implementation
+          let hs := hashesOf tabs pre
+          let res := apply cfg hs (toSt pre) (toOp cmd)
+          let modelCls := match res with | .ok _ => "ok" | .err => "err" | .panic => "panic"
+          if modelCls != result then mismatch "result" modelCls result
+          else
+            let m := match res with | .ok s' => ofSt post s' | _ => pre
+            cmpSt m post
+    | _, _, _, _, _, _ => badInput "parse"
+  | _ => badInput "arity"
+
+def handlers : List (String × Handler) := [("c13.op", handle)]
 end Drv.C13
